@@ -737,3 +737,119 @@ def replay_classify(model, obligation, version, scale, border):
                     bad.append((i, j, got, want))
     return dict(confirmed=bool(bad), call='utils.matrix_iter_verbose(<valid v%s symbol>, scale=%r, border=%r)' % (iso.version_name(version), scale, border),
                 detail='(row, col, reported type, ISO type): %r' % (bad[:4],))
+
+
+# ---------------------------------------------------------------- C07 replays
+from . import modes as _modes
+
+
+def _bytes_of(model):
+    d = (model or {}).get('data')
+    if not isinstance(d, list):
+        return None
+    full = bytes(max(0, min(255, int(x))) for x in d)
+    # the pair / element the failing loop iteration looked at comes first
+    front = b''
+    cells = (model or {}).get('data_cells') or {}
+    pos = sorted(int(k) for k in cells)
+    for p in pos:
+        if p % 2 == 0 and (p + 1) in pos:
+            front += bytes([cells[str(p)] % 256, cells[str(p + 1)] % 256])
+    for key, val in (model or {}).items():
+        if key.startswith('loop_counter_') and isinstance(val, int) and val >= 0:
+            front += full[2 * val:2 * val + 2] + full[3 * val:3 * val + 3]
+    return (front + full)[:64] if front else full[:64]
+
+
+def _candidates_from(data):
+    """the model's byte string and short prefixes / pairs of it (the model's length is arbitrary)"""
+    out = []
+    if data is not None:
+        out += [data[:2], data[:1], data[:3], data[:4], data]
+        for i in range(0, min(len(data), 40) - 1, 2):
+            out.append(data[i:i + 2])
+    seen = []
+    for c in out:
+        if c not in seen:
+            seen.append(c)
+    return seen
+
+
+def _spec_kanji(data):
+    return len(data) > 0 and len(data) % 2 == 0 and all(_modes.sjis_pair_valid(data[i], data[i + 1]) for i in range(0, len(data), 2))
+
+
+def _spec_hanzi(data):
+    return len(data) % 2 == 0 and all(_modes.gb2312_pair_valid(data[i], data[i + 1]) for i in range(0, len(data), 2))
+
+
+def _spec_mode(data):
+    if len(data) and all(_modes.is_digit(b) for b in data):
+        return 'numeric'
+    if len(data) and all(_modes.in_alnum45(b) for b in data):
+        return 'alphanumeric'
+    if _spec_kanji(data):
+        return 'kanji'
+    return 'byte'
+
+
+def replay_is_kanji(model, obligation):
+    extra = [b'\x83\x3f', b'\x83\x7f', b'\x9f\xfd', b'\xe0\x3f', b'\x81\x40', b'\x9f\xfc', b'\xeb\xbf', b'\x88\x9f\x00']
+    for data in _candidates_from(_bytes_of(model)) + extra:
+        try:
+            got = bool(encoder.is_kanji(data))
+        except Exception as ex:
+            return dict(confirmed=True, call='encoder.is_kanji(%r)' % data, detail='raised %r' % (ex,))
+        if got != _spec_kanji(data):
+            return dict(confirmed=True, call='encoder.is_kanji(%r)' % data,
+                        detail='returned %r; valid double-byte Shift JIS kanji per ISO 7.4.6: %r (user visible: segno.make(%r).mode == %r)' % (
+                            got, _spec_kanji(data), data, segno.make(data).mode))
+    return dict(confirmed=False, detail='is_kanji agrees with the specification on the tried byte strings')
+
+
+def replay_is_alphanumeric(model, obligation):
+    for data in _candidates_from(_bytes_of(model)) + [b'', b'A,B', b'a', b'AB\n', b'A B$%*+-./:']:
+        got = bool(encoder.is_alphanumeric(data))
+        want = len(data) > 0 and all(_modes.in_alnum45(b) for b in data)
+        if got != want:
+            return dict(confirmed=True, call='encoder.is_alphanumeric(%r)' % data, detail='returned %r, specification %r' % (got, want))
+    return dict(confirmed=False, detail='agrees on the tried byte strings')
+
+
+def replay_alnum_set(model, obligation):
+    bad = [c for c in range(256) if bool(encoder.is_alphanumeric(bytes([c]))) != (c in _modes.ALNUM45)]
+    tab = bytes(consts.ALPHANUMERIC_CHARS) != _modes.ALNUM45
+    return dict(confirmed=bool(bad) or tab, call='is_alphanumeric(bytes([c])) for all c', detail='bytes classified differently from the ISO 45 set: %r; table differs: %r' % (bad[:8], tab))
+
+
+def replay_find_mode(model, obligation):
+    for data in _candidates_from(_bytes_of(model)) + [b'1', b'A', b'a', b'', b'\x93\x5f', b'\x83\x3f']:
+        got = encoder.get_mode_name(encoder.find_mode(data))
+        if got != _spec_mode(data):
+            return dict(confirmed=True, call='encoder.find_mode(%r)' % data, detail='returned %r, first applicable mode per C07: %r' % (got, _spec_mode(data)))
+    return dict(confirmed=False, detail='agrees on the tried byte strings')
+
+
+def replay_make_segment(model, obligation, mode):
+    rep = {'numeric': lambda d: len(d) > 0 and all(_modes.is_digit(b) for b in d),
+           'alphanumeric': lambda d: len(d) > 0 and all(_modes.in_alnum45(b) for b in d),
+           'byte': lambda d: True, 'kanji': lambda d: len(d) % 2 == 0 and all(
+               _modes.sjis_pair_valid(d[i], d[i + 1]) for i in range(0, len(d), 2)),
+           'hanzi': _spec_hanzi}
+    extra = [b'\x83', b'\x83\x3f', b'\xb0', b'\xb0\x05', b'\xa2\x05', b'12', b'AB', b'']
+    for data in _candidates_from(_bytes_of(model)) + extra:
+        mc = None if mode is None else consts.MODE_MAPPING[mode]
+        call = 'encoder.make_segment(%r, mode=%r)  (== segno.make(%r, mode=%r))' % (data, mode, data, mode)
+        try:
+            seg = encoder.make_segment(data, mc)
+            if mode is None:
+                if encoder.get_mode_name(seg.mode) != _spec_mode(data):
+                    return dict(confirmed=True, call=call, detail='mode %r chosen, first applicable: %r' % (encoder.get_mode_name(seg.mode), _spec_mode(data)))
+            elif not rep[mode](data):
+                return dict(confirmed=True, call=call, detail='accepted although the content is not representable in mode %r' % mode)
+        except ValueError as ex:
+            if mode is None or rep[mode](data):
+                return dict(confirmed=True, call=call, detail='refused (%s) although representable' % (ex,))
+        except Exception as ex:
+            return dict(confirmed=True, call=call, detail='raised %r instead of ValueError' % (ex,))
+    return dict(confirmed=False, detail='agrees on the tried byte strings')
